@@ -946,6 +946,10 @@ func (c *Client) Start() (addr net.Addr, err error) {
 // loadServerCert is used by AutoMTLS to read an x.509 cert returned by the
 // server, and load it as the RootCA and ClientCA for the client TLSConfig.
 func (c *Client) loadServerCert(cert string) error {
+	if c.config.TLSConfig == nil {
+		return errors.New("plugin sent a TLS certificate but the client has no TLS configuration")
+	}
+
 	certPool := x509.NewCertPool()
 
 	asn1, err := base64.RawStdEncoding.DecodeString(cert)
